@@ -11,6 +11,8 @@ Line-protocol driver for the discovery model (C18).  Strings travel as the hex o
   dg <addr> <data> <rid> <now>              → discarded-bad | exc:<T> | nomatch | sent <addr> <hex> | kill | discarded-type | dead
   mkctx <name> <workgroup>                  → ok | exc:QMI_UsageException      (QMI_Context.__init__)
   sentcount                                 → number of datagrams sent by the responder so far
+  pingloop <reqid> <deadline> <turn>,…      → ok <addr>,…          turn = <t>:- | <t>:<addr>:<hex>   (ping_qmi_contexts with its clock)
+  disct <self> <reqid> <t0> <timeout> <turn>,… → as disc                                            (discover_peer_contexts with its clock)
   disc <self> <reqid> <addr>:<hex>,…        → ok <name>@<addr>:<port>;… | exc:UnicodeDecodeError
 -/
 open QmiModel.Discovery
@@ -40,6 +42,20 @@ def parseDgrams (s : String) : Option (List (Nat × Bytes)) :=
       match a.toNat?, Drv.unhex h with
       | some addr, some bs => some ((addr, bs) :: l)
       | _, _ => none
+    | _, _ => none) (some [])
+
+def parseTurns (s : String) : Option (List Turn) :=
+  if s == "-" then some [] else
+  (s.splitOn ",").foldr (fun item acc =>
+    match acc, item.splitOn ":" with
+    | some l, [t, "-"] =>
+      match t.toNat? with
+      | some t => some ({ t := t, ready := none } :: l)
+      | none => none
+    | some l, [t, a, h] =>
+      match t.toNat?, a.toNat?, Drv.unhex h with
+      | some t, some addr, some bs => some ({ t := t, ready := some (addr, bs) } :: l)
+      | _, _, _ => none
     | _, _ => none) (some [])
 
 def showPeer (p : Peer) : String :=
@@ -104,6 +120,18 @@ def stepLine (s : RState) (line : String) : RState × String :=
       | .ok peers => (s, "ok " ++ ";".intercalate (peers.map showPeer))
       | .error e => (s, excName e)
     | _, _, _ => (s, "bad-op")
+  | ["pingloop", rid, dl, ts] =>
+    match rid.toNat?, dl.toNat?, parseTurns ts with
+    | some rid, some dl, some ts =>
+      (s, "ok " ++ ",".intercalate ((pingLoop L rid dl ts).map (fun r => toString r.1)))
+    | _, _, _ => (s, "bad-op")
+  | ["disct", self, rid, t0, tmo, ts] =>
+    match str? self, rid.toNat?, t0.toNat?, tmo.toNat?, parseTurns ts with
+    | some self, some rid, some t0, some tmo, some ts =>
+      match discoverTimed L self rid t0 tmo ts with
+      | .ok peers => (s, "ok " ++ ";".intercalate (peers.map showPeer))
+      | .error e => (s, excName e)
+    | _, _, _, _, _ => (s, "bad-op")
   | _ => (s, "bad-op")
 
 def main : IO Unit :=
